@@ -71,7 +71,10 @@ func newSchemaValidator(schema *spec.Schema, rootSchema interface{}, root string
 	}
 
 	if rootSchema == nil {
-		rootSchema = schema
+		// a copy: expanding a root-level $ref overwrites *schema in place, and with it the definitions
+		// that the references of the expanded schema point into
+		root := *schema
+		rootSchema = &root
 	}
 
 	if schema.ID != "" || schema.Ref.String() != "" || schema.Ref.IsRoot() {
